@@ -207,7 +207,9 @@ func c12Flows(r *kernel.Run) {
 	regInfo := func(id string, what string) *types.NodeInformation {
 		ni, err := types.LoadNodeInformation(srv.Ctx, srv.Inner, id, srv.Opts()...)
 		if err != nil {
-			r.HarnessErr("load node info: %v", err)
+			// a record the library stored itself must load with the same wrapper
+			checkSealedFieldsAreSealed(r, srv.St, nodeW.St)
+			r.Violate("roundtrip", "stored-record-unloadable-with-same-wrapper/NodeInformation", "a node record written by the library cannot be loaded with the same storage wrapper: %v", err)
 		}
 		reg.add("the server encryption private key ("+what+")", ni.ServerEncryptionPrivateKeyBytes)
 		return ni
